@@ -284,7 +284,10 @@ fn join_check(sh: &Sh, k: usize, h: H, r: &mut Rng) {
         if !sh.finished[k].load(SeqCst) {
             c.fail(format!("wait() on coroutine {k} returned before its body finished"));
         }
-        if !h.is_done() {
+        c.log("isd.call", k as u64, 0, None);
+        let d = h.is_done();
+        c.log("isd.ret", k as u64, d as u64, None);
+        if !d {
             c.fail(format!("is_done() of coroutine {k} is false after wait() returned"));
         }
     }
@@ -349,6 +352,11 @@ fn main() {
         ctx.log("cfg", workers, 0, None);
         let mut r = Rng(sh.seed.wrapping_mul(0x2545F4914F6CDD1D) | 1);
         r.next();
+        // the scheduler is created by the first spawn under a std `Once`: do it before other threads exist
+        {
+            let (k, h) = spawn_one(&sh, 2, &mut r, Some(0));
+            join_check(&sh, k, h, &mut r);
+        }
         match sh.mode.as_str() {
             "burst" => burst(ctx, &sh, &mut r, n),
             "pool" => {
